@@ -48,6 +48,8 @@ def run(S):
                           ws_alts=[' ', '\n'], max_spaces=3, min_items=1, last_kinds=('cblock2', 'cblock1'))
     # content blocks `f[..]` with words, embedded code and blanks / line breaks at every position
     f6 += twopass.explore_content(S, max_atoms=2 if S.tier == 'quick' else 3)
+    # chains of binary operators with blanks, line breaks and comments at every gap, inside a call / an array
+    f6 += twopass.explore_binary(S, operands=2 if S.tier == 'quick' else 3)
     twopass.report(S, 'C03', f6)
     # with reordering on, the chosen order must not depend on spacing that formatting normalises
     f4 = c19.explore_spacing(S, 2 if S.tier == 'quick' else 3)
